@@ -93,13 +93,15 @@ def fun_eval(a, env, cache, ctx):
     h = REG[info[0]]
     args = info[1]
     vals = [np.array([float(S.evalf(t, env, cache, ctx)) for t in arg], dtype=float) for arg in args]
-    if kind == 'fun':
-        r = np.atleast_1d(np.asarray(h.real(*vals), dtype=float)).reshape(-1)
-        v = float(r[info[2]])
-    else:
-        comp, pos, k = info[2], info[3], info[4]
-        d = h.dreal(*vals)[pos]
-        v = float(np.atleast_2d(np.asarray(d, dtype=float))[comp, k])
+    from . import sx
+    with sx.unpatched():
+        if kind == 'fun':
+            r = np.atleast_1d(np.asarray(h.real(*vals), dtype=float)).reshape(-1)
+            v = float(r[info[2]])
+        else:
+            comp, pos, k = info[2], info[3], info[4]
+            d = h.dreal(*vals)[pos]
+            v = float(np.atleast_2d(np.asarray(d, dtype=float))[comp, k])
     return ctx.mpf(v) if ctx is not None else v
 
 
